@@ -35,6 +35,42 @@ func bs1Check(t *testing.T, tr *BPTree, m bs1Model, probes []string, what string
 		return false
 	}
 	ks := m.keys()
+	// node invariant assumed by the contracts of the prefix scans (spec nodesOK): every slot below KeysNum of a
+	// leaf holds a non-nil *Record with a Hint and MetaData, and the last pointer of a leaf is nil or a leaf
+	var walk func(n *Node) bool
+	walk = func(n *Node) bool {
+		if n == nil {
+			return true
+		}
+		if !n.isLeaf {
+			for i := 0; i <= n.KeysNum; i++ {
+				c, isNode := n.pointers[i].(*Node)
+				if !isNode || c == nil {
+					return fail("inner node: child %d of %d is %T", i, n.KeysNum, n.pointers[i])
+				}
+				if !walk(c) {
+					return false
+				}
+			}
+			return true
+		}
+		for i := 0; i < n.KeysNum; i++ {
+			r, isRec := n.pointers[i].(*Record)
+			if !isRec || r == nil || r.H == nil || r.H.meta == nil {
+				return fail("leaf slot %d of %d does not hold a well-formed *Record: %T", i, n.KeysNum, n.pointers[i])
+			}
+		}
+		if n.pointers[order-1] != nil {
+			nx, isNode := n.pointers[order-1].(*Node)
+			if isNode && nx != nil && !nx.isLeaf {
+				return fail("leaf chain leads to an inner node")
+			}
+		}
+		return true
+	}
+	if !walk(tr.root) {
+		return false
+	}
 	// Find
 	for _, p := range probes {
 		r, err := tr.Find([]byte(p))
